@@ -32,7 +32,8 @@ META = {
 SPECIAL = ["1", "e5", "O0", "S1", "O1", "S0", "_", "a_b", "X_1", "007", "E", "inf", "nan", "x1e3", "A"]
 # punctuation that the pinned code round-trips faithfully (probed: everything printable except space, '=', and the Newick
 # metacharacters); primed names come in pairs, because quote characters are what a "quoted labels" reader pairs up
-PUNCT = ["a'", "b'", "c''", 'q"x', 'r"', "x-1", "y.2", "p+q", "n|m", "h#1", "w@z", "k!", "$v", "t%", "u&u", "s*", "c~d", "e`f", "<g>", "h?", "i/j", "{k}", "l^m"]
+PUNCT = ["a'", "b'", "c''", 'q"x', 'r"', "x-1", "y.2", "p+q", "n|m", "h#1", "w@z", "k!", "$v", "t%", "u&u", "s*", "c~d", "e`f", "<g>", "h?", "i/j", "{k}", "l^m",
+         "gene%3AFAM7", "p%2Cq", "t%28x%29", "u%", "v%41", "w%3a", "%5Bz%5D"]
 ALPHA = "abcdefghijklmnopqrstuvwxyzABCDEFGHIJKLMNOPQRSTUVWXYZ0123456789_"
 
 
